@@ -50,7 +50,7 @@ fn parse(
         ));
     }
 
-    let version: i32 = tok.read_number().unwrap().as_integer().unwrap();
+    let version: i32 = int_of(&tok.read_number()?)?;
 
     if version > INK_VERSION_CURRENT {
         return Err(StoryError::BadJson(
@@ -110,6 +110,30 @@ fn parse(
     Ok((version, main_content_container, list_defs))
 }
 
+fn bad_number() -> StoryError {
+    StoryError::BadJson("Expected a 32-bit integer".to_owned())
+}
+
+fn int_of(n: &super::json_tokenizer::Number) -> Result<i32, StoryError> {
+    if n.is_integer() {
+        n.as_integer().ok_or_else(bad_number)
+    } else {
+        Err(bad_number())
+    }
+}
+
+fn int_of_value(v: &JsonValue) -> Result<i32, StoryError> {
+    match v {
+        JsonValue::Number(n) => int_of(n),
+        _ => Err(bad_number()),
+    }
+}
+
+fn str_of(v: &JsonValue) -> Result<&str, StoryError> {
+    v.as_str()
+        .ok_or_else(|| StoryError::BadJson("Expected a string".to_owned()))
+}
+
 enum ArrayElement {
     RTObject(Rc<dyn RTObject>),
     LastElement(i32, Option<String>, HashMap<String, Rc<Container>>),
@@ -129,10 +153,10 @@ fn jtoken_to_runtime_object(
         JsonValue::Boolean(value) => Ok(ArrayElement::RTObject(Rc::new(Value::new::<bool>(value)))),
         JsonValue::Number(value) => {
             if value.is_integer() {
-                let val: i32 = value.as_integer().unwrap();
+                let val: i32 = int_of(&value)?;
                 Ok(ArrayElement::RTObject(Rc::new(Value::new::<i32>(val))))
             } else {
-                let val: f32 = value.as_float().unwrap();
+                let val: f32 = value.as_float().ok_or_else(bad_number)?;
                 Ok(ArrayElement::RTObject(Rc::new(Value::new::<f32>(val))))
             }
         }
@@ -140,7 +164,14 @@ fn jtoken_to_runtime_object(
             let str = value.as_str();
 
             // String value
-            let first_char = str.chars().next().unwrap();
+            let first_char = match str.chars().next() {
+                Some(c) => c,
+                None => {
+                    return Err(StoryError::BadJson(
+                        "Failed to convert token to runtime RTObject: empty string".to_owned(),
+                    ));
+                }
+            };
             if first_char == '^' {
                 return Ok(ArrayElement::RTObject(Rc::new(Value::new::<&str>(
                     &str[1..],
@@ -195,13 +226,13 @@ fn jtoken_to_runtime_object(
 
             // // VariablePointerValue
             if prop == "^var" {
-                let variable_name = prop_value.as_str().unwrap();
+                let variable_name = str_of(&prop_value)?;
                 let mut contex_index = -1;
 
                 if tok.peek()? == ',' {
                     tok.expect(',')?;
                     tok.expect_obj_key("ci")?;
-                    contex_index = tok.read_number().unwrap().as_integer().unwrap();
+                    contex_index = int_of(&tok.read_number()?)?;
                 }
 
                 let var_ptr = Rc::new(Value::new_variable_pointer(variable_name, contex_index));
@@ -233,7 +264,7 @@ fn jtoken_to_runtime_object(
             }
 
             if is_divert {
-                let target = prop_value.as_str().unwrap().to_string();
+                let target = str_of(&prop_value)?.to_string();
 
                 let mut var_divert_name: Option<String> = None;
                 let mut target_path: Option<String> = None;
@@ -252,7 +283,8 @@ fn jtoken_to_runtime_object(
                     } else if prop == "c" {
                         conditional = true;
                     } else if prop == "exArgs" {
-                        external_args = prop_value.as_integer().unwrap() as usize;
+                        external_args = usize::try_from(int_of_value(&prop_value)?)
+                            .map_err(|_| bad_number())?;
                     }
                 }
 
@@ -275,12 +307,12 @@ fn jtoken_to_runtime_object(
             // Choice
             if prop == "*" {
                 let mut flags = 0;
-                let path_string_on_choice = prop_value.as_str().unwrap();
+                let path_string_on_choice = str_of(&prop_value)?;
 
                 if tok.peek()? == ',' {
                     tok.expect(',')?;
                     tok.expect_obj_key("flg")?;
-                    flags = tok.read_number().unwrap().as_integer().unwrap();
+                    flags = int_of(&tok.read_number()?)?;
                 }
 
                 tok.expect('}')?;
@@ -294,14 +326,14 @@ fn jtoken_to_runtime_object(
             if prop == "VAR?" {
                 tok.expect('}')?;
                 return Ok(ArrayElement::RTObject(Rc::new(VariableReference::new(
-                    prop_value.as_str().unwrap(),
+                    str_of(&prop_value)?,
                 ))));
             }
 
             if prop == "CNT?" {
                 tok.expect('}')?;
                 return Ok(ArrayElement::RTObject(Rc::new(
-                    VariableReference::from_path_for_count(prop_value.as_str().unwrap()),
+                    VariableReference::from_path_for_count(str_of(&prop_value)?),
                 )));
             }
 
@@ -318,7 +350,7 @@ fn jtoken_to_runtime_object(
             }
 
             if is_var_ass {
-                let var_name = prop_value.as_str().unwrap();
+                let var_name = str_of(&prop_value)?;
                 let mut is_new_decl = true;
 
                 if tok.peek()? == ',' {
@@ -340,9 +372,9 @@ fn jtoken_to_runtime_object(
             // // Legacy Tag
             if prop == "#" {
                 tok.expect('}')?;
-                return Ok(ArrayElement::RTObject(Rc::new(Tag::new(
-                    prop_value.as_str().unwrap(),
-                ))));
+                return Ok(ArrayElement::RTObject(Rc::new(Tag::new(str_of(
+                    &prop_value,
+                )?))));
             }
 
             // List value
@@ -385,7 +417,9 @@ fn jtoken_to_runtime_object(
 
             // Used when serialising save state only
             if prop == "originalChoicePath" {
-                todo!("originalChoicePath");
+                return Err(StoryError::BadJson(
+                    "A saved choice is not valid story content".to_owned(),
+                ));
                 // return jobject_to_choice(obj); // TODO
             }
 
@@ -399,9 +433,9 @@ fn jtoken_to_runtime_object(
 
             loop {
                 if p == "#f" {
-                    flags = pv.as_integer().unwrap();
+                    flags = int_of_value(&pv)?;
                 } else if p == "#n" {
-                    name = Some(pv.as_str().unwrap().to_string());
+                    name = Some(str_of(&pv)?.to_string());
                 } else {
                     let named_content_item = jtoken_to_runtime_object(tok, pv, Some(p.clone()))?;
 
@@ -417,7 +451,9 @@ fn jtoken_to_runtime_object(
                     let named_sub_container = named_content_item
                         .into_any()
                         .downcast::<Container>()
-                        .unwrap();
+                        .map_err(|_| {
+                            StoryError::BadJson("Named content is not a container".to_owned())
+                        })?;
 
                     named_only_content.insert(p, named_sub_container);
                 }
@@ -447,7 +483,7 @@ fn parse_list(tok: &mut JsonTokenizer) -> Result<HashMap<String, i32>, StoryErro
 
     while tok.peek()? != '}' {
         let key = tok.read_obj_key()?;
-        let value = tok.read_number().unwrap().as_integer().unwrap();
+        let value = int_of(&tok.read_number()?)?;
         list_content.insert(key, value);
 
         if tok.peek()? != '}' {
